@@ -143,7 +143,7 @@ def ref_read_all(buf):
 
 def ref_packets(pages):
     """packets of one logical stream from reference pages (list of bytes; the last one possibly unfinished)."""
-    out, open_ = [], False
+    out = []
     for p in pages:
         for i, d in enumerate(p["packets"]):
             if i == 0 and p["continued"] and out:
@@ -783,39 +783,52 @@ def oracle_stream_file(ctx, before, after, serial, what, d, expect_packets=None,
 
 
 def corr_files(ctx, O, n):
-    rng = ctx.rng
     for it in range(n):
         data, spec = synth_file(ctx, O)
-        pages = read_impl_pages(O, data)
-        serials = sorted({p.serial for p in pages})
-        # --- find_last
-        for serial in serials + [424242]:
-            for fin in (False, True):
-                try:
-                    q = O.OggPage.find_last(io.BytesIO(data), serial, finishing=fin)
-                    mine = "ok " + ("none" if q is None else page_text(page_fields(q)))
-                except Exception as e:
-                    mine = "raise " + exc_name(e)
-                rm = ctx.model.call("ogg_find_last", hx(data), zs(serial), "1" if fin else "0")
-                ctx.corr_cases += 1
-                ctx.count("file:find_last")
-                ctx.case(("fl", spec["order_seed"], serial, fin))
-                if mine != rm and len(ctx.disagreements) < 6:
-                    ctx.disagree("c15.find_last", "differs: implementation %s model %s" % (mine[:80], rm[:80]), {"runner": "c15.file", "spec": spec, "op": "find_last", "serial": serial, "fin": fin})
-                # oracle: last page of the stream (up to the first eos page) by the reference reader
-                ctx.oracle_cases += 1
-                refp = [p for p in ref_read_all(data) if p["serial"] == serial]
-                cut = next((i for i, p in enumerate(refp) if p["last"]), len(refp) - 1)
-                cand = [p for p in refp[:cut + 1] if (not fin or p["position"] != -1)]
-                want = cand[-1]["raw"] if cand else None
-                got = None if (mine.startswith("raise") or mine == "ok none") else q.write()
-                if mine.startswith("raise") or got != want:
-                    ctx.violation("oracle", "find_last: not the last page of the stream", {"runner": "c15.file", "spec": spec, "op": "find_last", "serial": serial, "fin": fin})
-        # --- renumber from some page boundary
-        serial = rng.choice(serials)
-        k = rng.randrange(len(pages))
+        corr_one_file(ctx, O, data, spec)
+
+
+def corr_one_file(ctx, O, data, spec, only=None, fixed=None):
+    rng = ctx.rng
+    pages = read_impl_pages(O, data)
+    serials = sorted({p.serial for p in pages})
+    # --- find_last
+    for serial in (serials + [424242] if only in (None, "find_last") else []):
+        for fin in (False, True):
+            try:
+                q = O.OggPage.find_last(io.BytesIO(data), serial, finishing=fin)
+                mine = "ok " + ("none" if q is None else page_text(page_fields(q)))
+            except Exception as e:
+                mine = "raise " + exc_name(e)
+            rm = ctx.model.call("ogg_find_last", hx(data), zs(serial), "1" if fin else "0")
+            ctx.corr_cases += 1
+            ctx.count("file:find_last")
+            ctx.case(("fl", spec["order_seed"], serial, fin))
+            if mine != rm and len(ctx.disagreements) < 6:
+                ctx.disagree("c15.find_last", "differs: implementation %s model %s" % (mine[:80], rm[:80]), {"runner": "c15.file", "spec": spec, "op": "find_last", "serial": serial, "fin": fin})
+            # oracle: last page of the stream (up to the first eos page) by the reference reader
+            ctx.oracle_cases += 1
+            refp = [p for p in ref_read_all(data) if p["serial"] == serial]
+            cut = next((i for i, p in enumerate(refp) if p["last"]), len(refp) - 1)
+            cand = [p for p in refp[:cut + 1] if (not fin or p["position"] != -1)]
+            want = cand[-1]["raw"] if cand else None
+            got = None if (mine.startswith("raise") or mine == "ok none") else q.write()
+            if want is None and cut < len(refp) - 1 and fin:
+                # pages of the serial after its end-of-stream page and no finishing page before it: find_last's fast path
+                # (last page of the file) leaks through; outside C15's statement, left to the correspondence
+                ctx.count("file:find_last-after-eos-quirk")
+                continue
+            if mine.startswith("raise") or got != want:
+                ctx.violation("oracle", "find_last: not the last page of the stream", {"runner": "c15.file", "spec": spec, "op": "find_last", "serial": serial, "fin": fin})
+    # --- renumber from some page boundary
+    if only in (None, "renumber"):
+        if only == "renumber":
+            serial, k, start = fixed["serial"], fixed["k"], fixed["start"]
+        else:
+            serial = rng.choice(serials)
+            k = rng.randrange(len(pages))
+            start = rng.choice([0, 9, 2 ** 32 - 2])
         pos = pages[k].offset
-        start = rng.choice([0, 9, 2 ** 32 - 2])
         f = io.BytesIO(data); f.seek(pos)
         mine = file_result(lambda: O.OggPage.renumber(f, serial, start), f)
         rm = ctx.model.call("ogg_renumber", hx(data), zs(pos), zs(serial), zs(start))
@@ -842,9 +855,10 @@ def corr_files(ctx, O, n):
                 okk = False
             if not okk:
                 ctx.violation("oracle", "renumber: pages of the stream not renumbered consecutively / other bytes changed", d)
-        elif start + 10 < 2 ** 32:
+        elif start + len(pages) < 2 ** 32:
             ctx.violation("oracle", "renumber: failed on a well-formed file (%s)" % mine[:30], d)
-        # --- replace a run of one stream's pages
+    # --- replace a run of one stream's pages
+    if only is None:
         for rel in ("fewer", "equal", "more", "any"):
             corr_replace(ctx, O, data, spec, pages, rel)
 
@@ -905,11 +919,7 @@ def corr_replace(ctx, O, data, spec, pages, rel, fixed=None):
     expect = None
     if not old_pages[0].continued and old_pages[-1].complete:
         refb = [p for p in ref_read_all(data) if p["serial"] == serial]
-        expect = ref_packets(refb[:a]) + new_packets
-        tail = ref_packets(refb[b:])
-        if refb[b:] and refb[b]["continued"]:
-            tail = tail  # cannot happen: the old run ended complete
-        expect = expect + tail
+        expect = ref_packets(refb[:a]) + new_packets + ref_packets(refb[b:])
     # shapes in which an earlier replace() copied the flags of ONE page onto two pages (fixed in /repo; kept as regression cases)
     flag_class = None
     if len(old_pages) == 1 and nnew > 1 and (old_pages[0].first or old_pages[0].last):
@@ -1063,42 +1073,49 @@ def search(ctx, broken):
     ctx.notes["search"] = "wider lattice/paging/replace search found %d failing inputs" % (len(ctx.violations) - before)
 
 
+def _unknown_violations(ctx, start=0):
+    import common
+    known = [k for k in common.load_known() if k.get("property") == PROP and k.get("kind") == "known"]
+    return [v for v in ctx.violations[start:] if not any(common.matches(k, v) for k in known)]
+
+
 def replay(ctx, payload):
     O = _ogg()
     d = payload.get("data", {})
     if payload.get("kind") != "failing-input" or "runner" not in d:
         run(ctx)
-        return bool(ctx.violations or ctx.disagreements)
+        return bool(_unknown_violations(ctx) or ctx.disagreements)
     before = len(ctx.violations)
-    if d["runner"] == "c15.paging":
-        sizes = d["sizes"] if d.get("sizes") is not None else unrle(d["sizes_rle"])
-        packets = mk_packets(ctx.rng, sizes)
-        st, pages = impl_from_packets(O, packets, d["seq"], d["ds"], d["wr"])
-        oracle_paging(ctx, O, sizes, packets, d["seq"], d["ds"], d["wr"], st, pages, "replay")
-    elif d["runner"] == "c15.file" and d.get("op") == "replace":
-        data, spec = synth_file(ctx, O, d["spec"])
-        pages = read_impl_pages(O, data)
-        saved = ctx.model.call
-        ctx.model.call = lambda *a: ""
-        try:
-            corr_replace(ctx, O, data, spec, pages, "any", d["fixed"])
-        finally:
-            ctx.model.call = saved
-    elif d["runner"] == "c15.page":
-        p = mk_page(O, parse_page_text(d["page"]))
-        w = impl_write(p)
-        if isinstance(w, bytes):
-            oracle_rendered(ctx, O, p, w)
-    elif d["runner"] == "c15.parse":
-        saved = ctx.model.call
-        ctx.model.call = lambda *a: ""
-        try:
+    saved = ctx.model.call
+    ctx.model.call = lambda *a: ""          # oracle only: the replay judges the implementation, not the correspondence
+    try:
+        if d["runner"] == "c15.paging":
+            sizes = d["sizes"] if d.get("sizes") is not None else unrle(d["sizes_rle"])
+            packets = mk_packets(ctx.rng, sizes)
+            st, pages = impl_from_packets(O, packets, d["seq"], d["ds"], d["wr"])
+            oracle_paging(ctx, O, sizes, packets, d["seq"], d["ds"], d["wr"], st, pages, "replay")
+        elif d["runner"] == "c15.file" and d.get("op") == "replace":
+            data, spec = synth_file(ctx, O, d["spec"])
+            corr_replace(ctx, O, data, spec, read_impl_pages(O, data), "any", d["fixed"])
+        elif d["runner"] == "c15.file":
+            data, spec = synth_file(ctx, O, d["spec"])
+            corr_one_file(ctx, O, data, spec, only=d.get("op"), fixed=d)
+        elif d["runner"] == "c15.page":
+            p = mk_page(O, parse_page_text(d["page"]))
+            w = impl_write(p)
+            if isinstance(w, bytes):
+                oracle_rendered(ctx, O, p, w)
+        elif d["runner"] == "c15.parse":
             corr_parse(ctx, O, bytes.fromhex(d["data"]))
-        finally:
+        elif d["runner"] == "c15.try_preserve":
+            corr_try_preserve(ctx, O, 300)
+        else:
             ctx.model.call = saved
-    else:
-        run(ctx)
-    return len(ctx.violations) > before
+            run(ctx)
+    finally:
+        ctx.model.call = saved
+    del ctx.disagreements[:]
+    return bool(_unknown_violations(ctx, before))
 
 
 def coverage_extra(ctx):
